@@ -4,7 +4,11 @@ package rules
 import (
 	"fmt"
 	"go/token"
+	"go/types"
 	"sort"
+	"strings"
+
+	"dcverif/internal/ssax"
 
 	"dcverif/internal/fsmx"
 	"dcverif/internal/load"
@@ -27,7 +31,50 @@ type RuleFunc func(c *Ctx)
 var Registry = map[string]RuleFunc{}
 
 func NewCtx(p *load.Prog, r *report.Report, tier string) *Ctx {
-	return &Ctx{P: p, R: r, Tier: tier}
+	c := &Ctx{P: p, R: r, Tier: tier}
+	CustomJSONVerifier = c.verifyCustomJSON
+	return c
+}
+
+// verifyCustomJSON accepts exactly the delegating idiom
+//   func (x T) MarshalJSON() ([]byte, error)   { return json.Marshal(x.F) }
+//   func (x *T) UnmarshalJSON(b []byte) error  { return json.Unmarshal(b, &x.F) }
+// on the same field F (the shape of requests.FSMError). Anything else is not verified.
+func (c *Ctx) verifyCustomJSON(t types.Type) string {
+	n, ok := t.(*types.Named)
+	if !ok || n.Obj().Pkg() == nil {
+		return "not a named type"
+	}
+	rel := strings.TrimPrefix(strings.TrimPrefix(n.Obj().Pkg().Path(), load.Module), "/")
+	mf := c.P.Func(rel, n.Obj().Name(), "MarshalJSON")
+	uf := c.P.Func(rel, n.Obj().Name(), "UnmarshalJSON")
+	if mf == nil || uf == nil {
+		return "methods not found in SSA"
+	}
+	field := func(fn *ssa.Function, callee string, arg int) string {
+		calls := ssax.CallsTo(fn, callee)
+		if len(calls) != 1 || len(fn.Blocks) != 1 {
+			return ""
+		}
+		p := ssax.Path(calls[0].Common().Args[arg])
+		recv := fn.Params[0].Name()
+		if strings.HasPrefix(p, recv+".") && !strings.Contains(p[len(recv)+1:], ".") && !strings.Contains(p, "(") {
+			return p[len(recv)+1:]
+		}
+		return ""
+	}
+	mfld := field(mf, "encoding/json.Marshal", 0)
+	ufld := field(uf, "encoding/json.Unmarshal", 1)
+	if mfld == "" || ufld == "" {
+		return "bodies are not single json.Marshal(x.F) / json.Unmarshal(b, &x.F) delegations"
+	}
+	if mfld != ufld {
+		return "MarshalJSON encodes field " + mfld + " but UnmarshalJSON decodes into " + ufld
+	}
+	if st, ok := n.Underlying().(*types.Struct); ok && st.NumFields() != 1 {
+		return "the pair carries only field " + mfld + " of a struct with more fields"
+	}
+	return ""
 }
 
 // Fn resolves an anchor function; an unresolved anchor is a failed obligation, not a skip.
